@@ -84,6 +84,12 @@ package pathbadger
 //@ ghost func PtrMerged(e *node.Pointer, n *node.Pointer) bool { return e == nil || n == nil || e.Hash != n.Hash || e.DBInternal == nil || n.DBInternal != nil }
 //@ ghost func PtrSep(e *node.InternalNode, n *node.InternalNode) bool { return e.Left != n.Left && e.Left != n.Right && e.Left != n.LeafNode && e.Right != n.Left && e.Right != n.Right && e.Right != n.LeafNode && e.LeafNode != n.Left && e.LeafNode != n.Right && e.LeafNode != n.LeafNode }
 
+//@ func badgerBatch.PutNode
+//@   props C06
+//@   requires ba != nil && ptr != nil
+//@   precall badger/v4\.WriteBatch\)\.Set$ :: len(ba.updatedNodes) == old(len(ba.updatedNodes)) + 1
+//@   note EVERY node this batch writes to the database - a new node, and equally a CLEAN node of the previous version that is stored again under a new position (VisitCleanNode: the old root became a child, an attached leaf became a standalone one) - is first recorded in the batch's updated-nodes index: for a candidate root with a non-zero pending sequence number Finalize copies exactly the indexed nodes to the finalized key space and then wipes the pending keys (seed C06_j recorded only dirty nodes: the relocated clean nodes of a finalized fork were deleted; HasRoot still true, reads "node not found")
+
 //@ func badgerBatch.multipartMergeWithExisting
 //@   props C12
 //@   requires ba != nil && ptr != nil
